@@ -30,6 +30,8 @@ func reasonedDrop(call *ssa.Call) (string, bool) {
 		return "strings.Builder writes cannot fail", true
 	case pkg == "bytes" && recv == "Buffer" && strings.HasPrefix(f.Name(), "Write"):
 		return "bytes.Buffer writes cannot fail (they panic on out-of-memory)", true
+	case pkg == "fmt" && strings.HasPrefix(f.Name(), "Fprint") && len(call.Call.Args) > 0 && isMemoryWriter(call.Call.Args[0]):
+		return "formatted write into a strings.Builder / bytes.Buffer cannot fail", true
 	case pkg == "fmt" && (strings.HasPrefix(f.Name(), "Print")):
 		return "printing to stdout; a closed stdout is outside the fault classes of C16", true
 	case pkg == "os" && recv == "File" && (f.Name() == "WriteString" || f.Name() == "Write"):
@@ -42,6 +44,14 @@ func reasonedDrop(call *ssa.Call) (string, bool) {
 		}
 	}
 	return "", false
+}
+
+// isMemoryWriter: the io.Writer is a *strings.Builder or *bytes.Buffer.
+func isMemoryWriter(v ssa.Value) bool {
+	if mi, ok := v.(*ssa.MakeInterface); ok {
+		v = mi.X
+	}
+	return isNamed(derefType(v.Type()), "strings", "Builder") || isNamed(derefType(v.Type()), "bytes", "Buffer")
 }
 
 func (c *Ctx) errSites() []errSite {
